@@ -269,23 +269,41 @@ type pend struct {
 	reqs  []*preq
 	used  map[string]bool // roots/list frame ids already attributed
 	bad   bool
+	fam   string // family name in signatures / counters; "" = pending-across-old-teardown
 }
 
 func (p *pend) step(f string, a ...interface{}) { p.trace = append(p.trace, fmt.Sprintf(f, a...)) }
 
 func (p *pend) inconclusive(what string) {
+	if p.fam != "" {
+		p.r.Count(p.fam+"_schedules_inconclusive", 1)
+		p.r.Inconclusive(p.fam + ": " + p.scn + ": " + what + " [" + strings.Join(p.tail(), "; ") + "]")
+		return
+	}
 	p.r.Count("pending_schedules_inconclusive", 1)
 	p.r.Inconclusive(p.scn + ": " + what + " [" + strings.Join(p.trace, "; ") + "]")
 }
 
+// tail: the last steps of a long schedule.
+func (p *pend) tail() []string {
+	if len(p.trace) > 24 {
+		return append([]string{fmt.Sprintf("... %d earlier steps ...", len(p.trace)-24)}, p.trace[len(p.trace)-24:]...)
+	}
+	return p.trace
+}
+
 func (p *pend) violation(q *preq, symptom, what string) {
-	if !p.bad {
+	if !p.bad && p.fam == "" {
 		pendBad++
 	}
 	p.bad = true
-	w := map[string]interface{}{"scenario": p.scn, "schedule": p.trace, "registered_streams": mcp.VerifListeningStreams(p.in.Server),
+	fam := p.fam
+	if fam == "" {
+		fam = "pending-across-old-teardown"
+	}
+	w := map[string]interface{}{"scenario": p.scn, "schedule": p.tail(), "registered_streams": mcp.VerifListeningStreams(p.in.Server),
 		"pending_server_requests": mcp.VerifPendingServerRequests(p.in.Server)}
-	sig := "C11|pending-across-old-teardown|" + p.scn
+	sig := "C11|" + fam + "|" + p.scn
 	if q != nil {
 		w["request"] = map[string]interface{}{"api": q.kind, "issued": q.phase, "frame_id": q.frame.id, "frame_method": q.frame.method,
 			"delivered_on_live_stream": q.onLive, "outcome": q.outcome(), "answer_post_status": q.answerStatus}
@@ -430,6 +448,10 @@ func (p *pend) answerAll() {
 		p.r.Count("server_requests_answered_and_returned_the_answer", 1)
 		if q.phase == "while-old-teardown-delayed" {
 			p.r.Count("server_requests_pending_across_old_teardown_answered", 1)
+		}
+		if p.fam != "" {
+			p.r.Distinct(p.fam + "|" + p.scn + "|" + q.kind + "@" + q.phase)
+			continue
 		}
 		p.r.Distinct("pending|" + p.scn + "|" + q.kind + "@" + q.phase)
 	}
